@@ -13,7 +13,7 @@ import sys
 
 VERIF = os.path.dirname(os.path.dirname(os.path.abspath(__file__)))
 EXTRA = {  # other checks worth running for a change seeded against a property
-    "C02a": ["C13"], "C02c": ["C17"], "C02f": ["C16"], "C01f": ["C16"], "C08f": ["C16"], "C03c": ["C16"], "C06d": ["C15"], "C05a": ["C06"], "C06b": ["C15"], "C15b": ["C09"], "C09b": ["C15"], "C20k": ["C15"], "C12m": ["C01"], "C01n": ["C15"], "C05p": ["C06"], "C12p": ["C01"],
+    "C02a": ["C13"], "C02c": ["C17"], "C02f": ["C16"], "C01f": ["C16"], "C08f": ["C16"], "C03c": ["C16"], "C06d": ["C15"], "C05a": ["C06"], "C06b": ["C15"], "C15b": ["C09"], "C09b": ["C15"], "C20k": ["C15"], "C12m": ["C01"], "C01n": ["C15"], "C05p": ["C06"], "C12p": ["C01"], "C13q": ["C02"], "C14q": ["C03"], "C02r": ["C10"],
 }
 HISTORY = {  # what had to be strengthened before the change was caught (filled from the campaign log)
     "C01a": "missed at first: no input held the same picture twice -> added stamp_twice / copy_block mutations",
